@@ -67,7 +67,10 @@ func (m *M) Fail(ctx context.Context, tok string) error {
 	m.rec("M.Fail", tok)
 	return errors.New("fail " + tok)
 }
-func (m *M) Both(tok string) (string, error) { m.rec("M.Both", tok); return tok, errors.New("both " + tok) }
+func (m *M) Both(tok string) (string, error) {
+	m.rec("M.Both", tok)
+	return tok, errors.New("both " + tok)
+}
 func (m *M) Pair(ctx context.Context, tok string) (string, error) {
 	m.rec("M.Pair", tok)
 	return tok, nil
@@ -79,8 +82,8 @@ func (m *M) Two(ctx context.Context, tok string, n int) (string, error) {
 	return tok, nil
 }
 func (m *M) Typed(tok string, n int) string { m.rec("M.Typed", tok); return tok }
-func (m *M) Nullary() string                 { m.rec("M.Nullary", ""); return "nullary" }
-func (m *M) Sentinel() string                { return "sentinel" } // WS delimiter, not logged
+func (m *M) Nullary() string                { m.rec("M.Nullary", ""); return "nullary" }
+func (m *M) Sentinel() string               { return "sentinel" } // WS delimiter, not logged
 
 // ---------------------------------------------------------------------------------------
 // Reference model.
